@@ -466,7 +466,13 @@ func (eq *eq) Execute(searcher index.GetSearcher, seriesID common.SeriesID, tr *
 }
 
 func (eq *eq) ShouldSkip(tagFamilyFilters index.FilterOp) (bool, error) {
-	return !tagFamilyFilters.Eq(eq.Key.Tags[0], eq.Expr.String()), nil
+	// The block filters hold the stored (marshalled) form of the tag values, which for an integer is its
+	// 8-byte encoding, not the decimal text of the literal.
+	bb := eq.Expr.Bytes()
+	if len(bb) != 1 {
+		return false, nil
+	}
+	return !tagFamilyFilters.Eq(eq.Key.Tags[0], convert.BytesToString(bb[0])), nil
 }
 
 func (eq *eq) MarshalJSON() ([]byte, error) {
